@@ -219,7 +219,7 @@ pub struct MemDesc {
 
 #[path = "../c20_maps.rs"]
 mod maps;
-use maps::{EXCLUDED_BITFIELDS, MAPS, MEMS};
+use maps::{MAPS, MEMS};
 
 include!("../c20_body.rs");
 include!("../c20_main.rs");
